@@ -57,4 +57,9 @@ def _extra(db, res, tier, scope):
 
 def run(db, res, tier):
   family_a.run_family(db, res, tier, "C05", extra=_extra)
+  from ..rules import r_live
+
+  nrow = r_live.check_row_records_unconditional(res, db, db.launch_ctxs())
+  res.floor("constraint-row record obligations (R-LIVE.5b)", nrow, 120)
+  res.rule_text += "; R-LIVE.5b: every row builder that allocates constraint rows writes all eight scalar row fields (type, id, pos, margin, D, vel, aref, frictionloss) of the fresh row, none under a data-dependent condition the others lack (rows are re-used across steps)"
   res.rule_text += "; R-SEQ.2: on the trace of make_constraint the row-allocating launches are ordered equality < friction loss < limit < contact (rows are classified by position), each bumps exactly its own class counter and allocates from nefc in the same kernel"
